@@ -377,8 +377,8 @@ fn run(ctx: &mut Ctx) {
         dfs(ctx, &c, &mut Vec::new(), 0, &mut visited, &mut idx);
     }
     let ub: Vec<(Fam, u8, usize)> = match ctx.tier {
-        Tier::Quick => vec![(Fam::Txt, 0, 5), (Fam::Map, 0, 5), (Fam::Nest, 0, 4)],
-        Tier::Thorough => vec![(Fam::Txt, 1, 6), (Fam::Map, 1, 6), (Fam::Nest, 0, 5), (Fam::Arr, 1, 5), (Fam::Rtx, 0, 5)],
+        Tier::Quick => vec![(Fam::Txt, 0, 6), (Fam::Map, 0, 5), (Fam::Nest, 0, 4)],
+        Tier::Thorough => vec![(Fam::Txt, 0, 8), (Fam::Txt, 1, 6), (Fam::Map, 1, 6), (Fam::Nest, 0, 5), (Fam::Arr, 1, 6), (Fam::Rtx, 0, 5)],
     };
     for (fam, level, max) in ub {
         let mut visited = HashMap::new();
